@@ -56,8 +56,13 @@ impl TryFrom<&Value> for Coord {
 
 impl Hash for Coord {
     fn hash<H: std::hash::Hasher>(&self, state: &mut H) {
-        self.lat.to_bits().hash(state);
-        self.long.to_bits().hash(state);
+        // +0.0 and -0.0 are equal, they must hash alike
+        (if self.lat == 0.0 { 0.0 } else { self.lat })
+            .to_bits()
+            .hash(state);
+        (if self.long == 0.0 { 0.0 } else { self.long })
+            .to_bits()
+            .hash(state);
     }
 }
 
